@@ -57,6 +57,9 @@ func glExpr(e ast.Expr) string {
 		for i, a := range x.Args {
 			args[i] = glExpr(a)
 		}
+		if id, ok := x.Fun.(*ast.Ident); ok && (id.Name == "make" || id.Name == "new") && len(x.Args) > 0 {
+			args[0] = fmt.Sprintf("(.str %s)", leanStr(exprStr(x.Args[0]))) // a type, not a value
+		}
 		return fmt.Sprintf("(.call %s [%s])", glExpr(x.Fun), strings.Join(args, ", "))
 	case *ast.IndexExpr:
 		return fmt.Sprintf("(.idx %s %s)", glExpr(x.X), glExpr(x.Index))
@@ -93,6 +96,31 @@ func glExpr(e ast.Expr) string {
 		return fmt.Sprintf("(.call (.id \"#assert\") [%s, (.str %s)])", glExpr(x.X), leanStr(exprStr(x.Type)))
 	}
 	return fmt.Sprintf("(.other %s)", leanStr(exprStr(e)))
+}
+
+// glZero is the zero value of a declared type.
+func glZero(t ast.Expr) string {
+	switch x := t.(type) {
+	case *ast.Ident:
+		switch x.Name {
+		case "int", "int8", "int16", "int32", "int64", "uint", "uint8", "uint16", "uint32", "uint64", "uintptr", "byte", "ErrorLocation":
+			return "(.lit 0)"
+		case "bool":
+			return `(.id "false")`
+		case "string":
+			return `(.str "")`
+		}
+	case *ast.SelectorExpr:
+		if exprStr(x) == "syscall.Errno" || exprStr(x) == "time.Duration" {
+			return "(.lit 0)"
+		}
+	case *ast.StarExpr, *ast.ArrayType, *ast.MapType, *ast.FuncType, *ast.InterfaceType, *ast.ChanType:
+		if at, ok := t.(*ast.ArrayType); ok && at.Len != nil {
+			return fmt.Sprintf("(.call (.id \"#array\") [%s])", glExpr(at.Len))
+		}
+		return `(.id "nil")`
+	}
+	return fmt.Sprintf("(.call (.id \"#zero\") [(.str %s)])", leanStr(exprStr(t)))
 }
 
 func glExprList(l []ast.Expr) string {
@@ -141,7 +169,17 @@ func glStmt(s ast.Stmt, ind string) string {
 			for i, n := range vs.Names {
 				names[i] = n.Name
 			}
-			parts = append(parts, fmt.Sprintf("(.decl %s %s)", leanStrList(names), glExprList(vs.Values)))
+			vals := glExprList(vs.Values)
+			if len(vs.Values) == 0 && vs.Type != nil {
+				// explicit zero values by declared type
+				z := glZero(vs.Type)
+				zs := make([]string, len(names))
+				for i := range zs {
+					zs[i] = z
+				}
+				vals = "[" + strings.Join(zs, ", ") + "]"
+			}
+			parts = append(parts, fmt.Sprintf("(.decl %s %s)", leanStrList(names), vals))
 		}
 		if len(parts) == 1 {
 			return parts[0]
